@@ -163,3 +163,136 @@ fn c02_step_slices() {
     std::mem::forget(r); std::mem::forget(dest); std::mem::forget(steps); std::mem::forget(packet);
 }
 
+// ------------------------------------------------------------------------------------------------
+// H3 acknowledgements and PINGREQ generated by the client (no slice steps involved)
+// ------------------------------------------------------------------------------------------------
+
+fn no_field(_s: &EncodingStep) -> (u8, usize) { (0, 0) }
+
+/// kind: 0 PUBACK, 1 PUBREC, 2 PUBREL, 3 PUBCOMP; form: 0 = MQTT 3.1.1, 1 = MQTT5 success (short form), 2 = MQTT5 failing reason code without properties
+fn ack_body(kind: u8, form: u8) {
+    let pid: u16 = kani::any();
+    let c = ctx(if form == 0 { ProtocolVersion::Mqtt311 } else { ProtocolVersion::Mqtt5 }, OutboundAliasResolution::default());
+    let mut steps: VecDeque<EncodingStep> = VecDeque::with_capacity(8);
+    let fail = form == 2;
+    let (r, first, code) = match kind {
+        0 => { let p = PubackPacket { packet_id: pid, reason_code: if fail { PubackReasonCode::NotAuthorized } else { PubackReasonCode::Success }, ..Default::default() };
+               (if form == 0 { crate::mqtt::puback::write_puback_encoding_steps311(&p, &c, &mut steps) } else { crate::mqtt::puback::write_puback_encoding_steps5(&p, &c, &mut steps) }, 0x40u8, 0x87u8) }
+        1 => { let p = PubrecPacket { packet_id: pid, reason_code: if fail { PubrecReasonCode::QuotaExceeded } else { PubrecReasonCode::Success }, ..Default::default() };
+               (if form == 0 { crate::mqtt::pubrec::write_pubrec_encoding_steps311(&p, &c, &mut steps) } else { crate::mqtt::pubrec::write_pubrec_encoding_steps5(&p, &c, &mut steps) }, 0x50, 0x97) }
+        2 => { let p = PubrelPacket { packet_id: pid, reason_code: if fail { PubrelReasonCode::PacketIdentifierNotFound } else { PubrelReasonCode::Success }, ..Default::default() };
+               (if form == 0 { crate::mqtt::pubrel::write_pubrel_encoding_steps311(&p, &c, &mut steps) } else { crate::mqtt::pubrel::write_pubrel_encoding_steps5(&p, &c, &mut steps) }, 0x62, 0x92) }
+        _ => { let p = PubcompPacket { packet_id: pid, reason_code: if fail { PubcompReasonCode::PacketIdentifierNotFound } else { PubcompReasonCode::Success }, ..Default::default() };
+               (if form == 0 { crate::mqtt::pubcomp::write_pubcomp_encoding_steps311(&p, &c, &mut steps) } else { crate::mqtt::pubcomp::write_pubcomp_encoding_steps5(&p, &c, &mut steps) }, 0x70, 0x92) }
+    };
+    assert!(r.is_ok());
+    // MQTT5 3.4-3.7: type nibble (+ flags 0010 for PUBREL), remaining length, packet id, [reason code]; reason code 0 may be omitted (remaining length 2)
+    let mut w = Layout::new();
+    w.u8(first);
+    if form == 0 { w.u8(2); } else { w.vbi(if fail { 3 } else { 2 }); }
+    w.u16(pid);
+    if fail { w.u8(code); }
+    check_steps(&mut steps, &w, no_field);
+    std::mem::forget(r); std::mem::forget(steps);
+}
+
+// @gv props=C02,C05 tier=quick required=yes fns=write_puback_encoding_steps311
+// @gv bounds="PUBACK generated by the client, MQTT 3.1.1 (fixed four bytes); symbolic packet id"
+#[kani::proof]
+#[kani::unwind(8)]
+#[kani::stub(std::fmt::format, stub_format)]
+fn c02_puback311() { ack_body(0, 0) }
+
+// @gv props=C02,C05 tier=quick required=yes fns=write_puback_encoding_steps5
+// @gv bounds="PUBACK generated by the client, MQTT5 success (short form, remaining length 2); symbolic packet id"
+#[kani::proof]
+#[kani::unwind(8)]
+#[kani::stub(std::fmt::format, stub_format)]
+fn c02_puback5_success() { ack_body(0, 1) }
+
+// @gv props=C02,C05 tier=quick required=yes fns=write_puback_encoding_steps5
+// @gv bounds="PUBACK generated by the client, MQTT5 failing reason code without properties (remaining length 3); symbolic packet id"
+#[kani::proof]
+#[kani::unwind(8)]
+#[kani::stub(std::fmt::format, stub_format)]
+fn c02_puback5_failing() { ack_body(0, 2) }
+
+// @gv props=C02,C05 tier=quick required=yes fns=write_pubrec_encoding_steps311
+// @gv bounds="PUBREC generated by the client, MQTT 3.1.1 (fixed four bytes); symbolic packet id"
+#[kani::proof]
+#[kani::unwind(8)]
+#[kani::stub(std::fmt::format, stub_format)]
+fn c02_pubrec311() { ack_body(1, 0) }
+
+// @gv props=C02,C05 tier=quick required=yes fns=write_pubrec_encoding_steps5
+// @gv bounds="PUBREC generated by the client, MQTT5 success (short form, remaining length 2); symbolic packet id"
+#[kani::proof]
+#[kani::unwind(8)]
+#[kani::stub(std::fmt::format, stub_format)]
+fn c02_pubrec5_success() { ack_body(1, 1) }
+
+// @gv props=C02,C05 tier=thorough required=no fns=write_pubrec_encoding_steps5
+// @gv bounds="PUBREC generated by the client, MQTT5 failing reason code without properties (remaining length 3); symbolic packet id"
+#[kani::proof]
+#[kani::unwind(8)]
+#[kani::stub(std::fmt::format, stub_format)]
+fn c02_pubrec5_failing() { ack_body(1, 2) }
+
+// @gv props=C02,C05 tier=quick required=yes fns=write_pubrel_encoding_steps311
+// @gv bounds="PUBREL generated by the client, MQTT 3.1.1 (fixed four bytes); symbolic packet id"
+#[kani::proof]
+#[kani::unwind(8)]
+#[kani::stub(std::fmt::format, stub_format)]
+fn c02_pubrel311() { ack_body(2, 0) }
+
+// @gv props=C02,C05 tier=quick required=yes fns=write_pubrel_encoding_steps5
+// @gv bounds="PUBREL generated by the client, MQTT5 success (short form, remaining length 2); symbolic packet id"
+#[kani::proof]
+#[kani::unwind(8)]
+#[kani::stub(std::fmt::format, stub_format)]
+fn c02_pubrel5_success() { ack_body(2, 1) }
+
+// @gv props=C02,C05 tier=thorough required=no fns=write_pubrel_encoding_steps5
+// @gv bounds="PUBREL generated by the client, MQTT5 failing reason code without properties (remaining length 3); symbolic packet id"
+#[kani::proof]
+#[kani::unwind(8)]
+#[kani::stub(std::fmt::format, stub_format)]
+fn c02_pubrel5_failing() { ack_body(2, 2) }
+
+// @gv props=C02,C05 tier=quick required=yes fns=write_pubcomp_encoding_steps311
+// @gv bounds="PUBCOMP generated by the client, MQTT 3.1.1 (fixed four bytes); symbolic packet id"
+#[kani::proof]
+#[kani::unwind(8)]
+#[kani::stub(std::fmt::format, stub_format)]
+fn c02_pubcomp311() { ack_body(3, 0) }
+
+// @gv props=C02,C05 tier=quick required=yes fns=write_pubcomp_encoding_steps5
+// @gv bounds="PUBCOMP generated by the client, MQTT5 success (short form, remaining length 2); symbolic packet id"
+#[kani::proof]
+#[kani::unwind(8)]
+#[kani::stub(std::fmt::format, stub_format)]
+fn c02_pubcomp5_success() { ack_body(3, 1) }
+
+// @gv props=C02,C05 tier=thorough required=no fns=write_pubcomp_encoding_steps5
+// @gv bounds="PUBCOMP generated by the client, MQTT5 failing reason code without properties (remaining length 3); symbolic packet id"
+#[kani::proof]
+#[kani::unwind(8)]
+#[kani::stub(std::fmt::format, stub_format)]
+fn c02_pubcomp5_failing() { ack_body(3, 2) }
+
+// @gv props=C02,C14 tier=quick required=yes fns=write_pingreq_encoding_steps
+// @gv bounds="PINGREQ in both protocol versions: exactly the two bytes C0 00"
+#[kani::proof]
+#[kani::unwind(6)]
+#[kani::stub(std::fmt::format, stub_format)]
+fn c02_pingreq() {
+    let v5: bool = kani::any();
+    let c = ctx(if v5 { ProtocolVersion::Mqtt5 } else { ProtocolVersion::Mqtt311 }, OutboundAliasResolution::default());
+    let mut steps: VecDeque<EncodingStep> = VecDeque::with_capacity(8);
+    let r = crate::mqtt::pingreq::write_pingreq_encoding_steps(&PingreqPacket {}, &c, &mut steps);
+    assert!(r.is_ok());
+    let mut w = Layout::new();
+    w.u8(0xC0); w.u8(0);
+    check_steps(&mut steps, &w, no_field);
+    std::mem::forget(r); std::mem::forget(steps);
+}
